@@ -178,6 +178,16 @@ def run_shape(shape, tier):
                 got = relmodel.unordered(sem_tree(rel, env, prefer="r"))
             except IllFormed as e:
                 return obs + [("conformed tree is well-formed", False, {"why": str(e), "tree": str(rel)})]
+            except Skip as e:
+                if "indeterminate" not in str(e):
+                    raise
+                # the raw tree has a determinate meaning but the conformed one slices a relation without order: compare under
+                # the positional reading (slot order = the list order of the concrete replay)
+                env.count_mode = True
+                try:
+                    got = relmodel.unordered(sem_tree(rel, env, prefer="r"))
+                finally:
+                    env.count_mode = False
             obs.append(("conform preserves rows", relmodel.mset_eq(got, ref), {"tree": str(rel)}))
             try:
                 ex = sq.to_executable(build_raw(prog, env))
